@@ -3,7 +3,7 @@ CONFIG = {
     "audit": "BsVerif/Audit/C15.lean",
     "bsv_cmd": "c15",
     "technique": "Lean 4 proofs about an executable model of read_memory_by_pid / DAP write_bytes / RegisterMap / disassembly masking / parse_set_value (all addresses, lengths, data, memories) + differential correspondence on a live debuggee with guard holes + /proc/<pid>/mem, raw PTRACE_GETREGS and the program's own output as oracles",
-    "level_text": "Exactness of memory reads (C15_read_spec/_exact/_success_iff), of the DAP byte-granular write loop (C15_write_exact, _no_panic, _success_iff, _fail_confined, _write_then_read), of single-word pokes (C15_poke_exact), of the register table round trip (C15_reg_roundtrip, C15_reg_write_visible; tables re-extracted from register.rs on every run), of breakpoint masking in the disassembler (C15_disasm_masks_patches) and of integer setVariable parsing (C15_setvar_int_roundtrip) is proved in Lean for every memory, address, length and data. Three parts of the property are FALSE of the unchanged code and are proved so on witnesses (C15_read_total_counterexample, C15_disasm_total_counterexample, C15_setvar_range_counterexample), each replayed on the real code by the harness. The model is tied to the real Debugger on every run: boundary-exhaustive and seeded (offset, length, data) reads, word writes and DAP writes around word ends, page seams and unmapped holes of a live debuggee are executed on both and compared line by line.",
+    "level_text": "Exactness of memory reads (C15_read_spec/_exact/_success_iff/_total: a read succeeds iff the requested bytes are mapped and returns exactly them), of the DAP byte-granular write loop (C15_write_exact, _no_panic, _success_iff, _fail_confined, _write_then_read), of single-word pokes (C15_poke_exact), of the register table round trip (C15_reg_roundtrip, C15_reg_write_visible; tables re-extracted from register.rs on every run), of breakpoint masking in the disassembler (C15_disasm_masks_patches, C15_disasm_total) and of integer setVariable parsing (C15_setvar_int_roundtrip, C15_setvar_range, C15_setvar_accepted_exact) is proved in Lean for every memory, address, length and data, at full strength. Three parts of the property were FALSE of the original code (tail of a mapping unreadable, out-of-range setVariable truncated, breakpoint at a function's end address panicking the disassembler); they have been repaired in the repository (fix commits 37b4832, 5730161, 7d3e3cf), the model follows the repaired code, and the former witnesses are replayed on the real code by corpus/C15 on every run, a regression being a VIOLATION. The model is tied to the real Debugger on every run: boundary-exhaustive and seeded (offset, length, data) reads, word writes and DAP writes around word ends, page seams and unmapped holes of a live debuggee are executed on both and compared line by line.",
     "level_note": "Trusted: Lean kernel + 3 standard axioms; kernel model of PTRACE_PEEKDATA/POKEDATA (word access succeeds iff all 8 bytes are mapped; a failing POKE leaves the bytes before the first unmapped page written; FOLL_FORCE ignores page protection) — sampled by the correspondence run; page-granular mappings; model<->code tie is sampling (generator distribution in evidence). The DAP JSON layer above write_bytes/parse_set_value (setVariable/setExpression/readMemory/writeMemory request handlers, variable lookup, serialize_dap_value for composites) is not exercised (see uncovered).",
     "runs": {"quick": [{"n": 1500}], "thorough": [{"n": 30000, "timeout": 6000}]},
     "trivial_answers": ["ok", "-", "bad-op", "", "err"],
@@ -11,7 +11,7 @@ CONFIG = {
     "rule": "boundary-exhaustive + seeded generator in the harness; a case is one request line (read / poke / DAP write / register get+set / disasm / parse_set_value / window checksum / the program's own checksums) executed on the real Debugger attached to a live debuggee and on the Lean model; distinct = different (request, answer); non-trivial = the answer carries data (bytes, checksums, register values), not only ok/err",
     "assumptions": [
         "Linux ptrace: PEEKDATA/POKEDATA at address a succeed iff [a,a+8) is mapped (any protection, FOLL_FORCE); a failing POKEDATA has written the bytes that precede the first unmapped page (sampled on the live debuggee)",
-        "mappings are page granular (4 KiB); used only by C15_write_success_iff and the read counterexample",
+        "mappings are page granular (4 KiB); used by C15_write_success_iff, C15_write_then_read and, for reads shorter than one word only, by C15_read_success_iff / C15_read_total (C15_read_spec and C15_read_total_long do not need it)",
         "addr + len does not overflow usize (the top of the address space is not exercised); read_n < 2^63",
         "register values are written from the kernel-accepted domain (segment selectors are only read; eflags: arithmetic/direction bits; fs_base/gs_base: user addresses)",
         "x86-64 Linux user_regs_struct field order (constant of tools/tables/regs.py)",
